@@ -460,3 +460,24 @@ Fixpoint junk_deadline (timeout start : N) (arrivals : list N) : N :=
       if run_timeout_fires (t - start) timeout then start + timeout   (* fired before this reply *)
       else junk_deadline timeout (timer_after_reply false start t) rest
   end.
+
+(* insert_req and the response timer: `timer` is the Option in
+   ConnState::Active(timer) (Idle counts as None: the Idle arm always arms it);
+   a request taken at time t arms the timer only when none is running (T1). *)
+Definition timer_after_request (timer : option N) (t : N) : option N :=
+  if insreq_arms_timer_only_if_none
+  then match timer with None => Some t | Some s => Some s end
+  else Some t.
+
+(* one request outstanding since `start`, a silent peer, further requests
+   submitted at the given times: when does the read timeout end the first one *)
+Fixpoint req_deadline (timeout start : N) (arrivals : list N) : N :=
+  match arrivals with
+  | [] => start + timeout
+  | t :: rest =>
+      if run_timeout_fires (t - start) timeout then start + timeout
+      else match timer_after_request (Some start) t with
+           | Some s => req_deadline timeout s rest
+           | None => start + timeout
+           end
+  end.
